@@ -20,44 +20,63 @@ def LocValid : Local → Prop
   | .waitingAck v => valsValid v
   | .synced => True
 
-/-- the stream layer is in a reachable state, our SETTINGS are legal -/
-def CI (s : Streams) (loc : Local) : Prop := (∃ g, Reach g s) ∧ LocValid loc
+/-- the call is not `set_target_connection_window` (the only one that changes the configured
+    connection window) -/
+def Op.keepsTarget : Op → Bool
+  | .setTargetConnectionWindow _ => false
+  | _ => true
+
+theorem Op.ghost_target {op : Op} (h : op.keepsTarget = true) (g : Ghost) :
+    (op.ghost g).target = g.target ∧ (op.ghost g).hiTarget = g.hiTarget := by
+  cases op <;> first | exact ⟨rfl, rfl⟩ | cases h | skip
+  next vals =>
+    show (g.afterSettings (settingsIws vals)).target = _ ∧ (g.afterSettings (settingsIws vals)).hiTarget = _
+    cases settingsIws vals <;> exact ⟨rfl, rfl⟩
+
+/-- the stream layer is in a reachable state in which the connection window configured last is `T`
+    and the largest one so far `H`; our SETTINGS are legal -/
+def CI (T H : Nat) (s : Streams) (loc : Local) : Prop :=
+  (∃ g, Reach g s ∧ g.target = T ∧ g.hiTarget = H) ∧ LocValid loc
 
 /-- connection-level invariant -/
-abbrev CInv (c : Conn) : Prop := CI c.streams c.settings.loc
+abbrev CInv (T H : Nat) (c : Conn) : Prop := CI T H c.streams c.settings.loc
 
-theorem CI.op {s : Streams} {loc : Local} (h : CI s loc) (op : Op) (hv : op.valid s) : CI (op.apply s) loc := by
-  obtain ⟨g, hg⟩ := h.1
-  exact ⟨⟨_, Reach.step op hg hv⟩, h.2⟩
+variable {T H : Nat}
 
-theorem CI.fst {α : Type} {s' : Streams} {r : α} {p : Streams × α} {loc : Local} (h : p = (s', r)) (hp : CI p.1 loc) :
-    CI s' loc := by subst h; exact hp
+theorem CI.op {s : Streams} {loc : Local} (h : CI T H s loc) (op : Op) (hv : op.valid s)
+    (hk : op.keepsTarget = true := by rfl) : CI T H (op.apply s) loc := by
+  obtain ⟨g, hg, ht, hh⟩ := h.1
+  have := Op.ghost_target hk g
+  exact ⟨⟨_, Reach.step op hg hv, this.1.trans ht, this.2.trans hh⟩, h.2⟩
 
-theorem cinv_of_fst {α : Type} {c1 : Conn} {r : α} {p : Conn × α} (h : p = (c1, r)) (hp : CInv p.1) : CInv c1 := by
+theorem CI.fst {α : Type} {s' : Streams} {r : α} {p : Streams × α} {loc : Local} (h : p = (s', r)) (hp : CI T H p.1 loc) :
+    CI T H s' loc := by subst h; exact hp
+
+theorem cinv_of_fst {α : Type} {c1 : Conn} {r : α} {p : Conn × α} (h : p = (c1, r)) (hp : CInv T H p.1) : CInv T H c1 := by
   subst h; exact hp
 
-theorem panic_cinv {c : Conn} (h : CInv c) (m : String) : CInv (c.panic m) := h.op (.panic m) trivial
+theorem panic_cinv {c : Conn} (h : CInv T H c) (m : String) : CInv T H (c.panic m) := h.op (.panic m) trivial
 
-theorem dynGoAway_cinv {c : Conn} (h : CInv c) (id : Nat) (e : Reason) : CInv (c.dynGoAway id e) := by
+theorem dynGoAway_cinv {c : Conn} (h : CInv T H c) (id : Nat) (e : Reason) : CInv T H (c.dynGoAway id e) := by
   unfold Conn.dynGoAway
-  have h1 : CI (c.streams.recvGoAway id) c.settings.loc := h.op (.recvGoAway id) trivial
+  have h1 : CI T H (c.streams.recvGoAway id) c.settings.loc := h.op (.recvGoAway id) trivial
   dsimp only
   split
   · exact h1
   · exact h1.op (.panic _) trivial
 
-theorem goAwayNowData_cinv {c : Conn} (h : CInv c) (e : Reason) (d : Bytes) : CInv (c.goAwayNowData e d) := by
+theorem goAwayNowData_cinv {c : Conn} (h : CInv T H c) (e : Reason) (d : Bytes) : CInv T H (c.goAwayNowData e d) := by
   unfold Conn.goAwayNowData
   dsimp only
   split
   · exact h
   · exact h.op (.panic _) trivial
 
-theorem goAwayNow_cinv {c : Conn} (h : CInv c) (e : Reason) : CInv (c.goAwayNow e) := goAwayNowData_cinv h e []
+theorem goAwayNow_cinv {c : Conn} (h : CInv T H c) (e : Reason) : CInv T H (c.goAwayNow e) := goAwayNowData_cinv h e []
 
-theorem codecPollReady_cinv {c : Conn} (h : CInv c) : CInv c.codecPollReady.1 := h
+theorem codecPollReady_cinv {c : Conn} (h : CInv T H c) : CInv T H c.codecPollReady.1 := h
 
-theorem sendPendingGoAway_cinv {c : Conn} (h : CInv c) : CInv c.sendPendingGoAway.1 := by
+theorem sendPendingGoAway_cinv {c : Conn} (h : CInv T H c) : CInv T H c.sendPendingGoAway.1 := by
   unfold Conn.sendPendingGoAway
   split
   · have h1 := codecPollReady_cinv h
@@ -66,14 +85,14 @@ theorem sendPendingGoAway_cinv {c : Conn} (h : CInv c) : CInv c.sendPendingGoAwa
     · split <;> exact h
     · exact h
 
-theorem sendPendingPong_cinv {c : Conn} (h : CInv c) : CInv c.sendPendingPong.1 := by
+theorem sendPendingPong_cinv {c : Conn} (h : CInv T H c) : CInv T H c.sendPendingPong.1 := by
   unfold Conn.sendPendingPong
   split
   · have h1 := codecPollReady_cinv h
     split <;> (rename_i heq; rw [heq] at h1; exact h1)
   · exact h
 
-theorem sendPendingPing_cinv {c : Conn} (h : CInv c) : CInv c.sendPendingPing.1 := by
+theorem sendPendingPing_cinv {c : Conn} (h : CInv T H c) : CInv T H c.sendPendingPing.1 := by
   unfold Conn.sendPendingPing
   split
   · split
@@ -87,16 +106,16 @@ theorem sendPendingPing_cinv {c : Conn} (h : CInv c) : CInv c.sendPendingPing.1 
       split
       · split
         · rename_i _ c1 heq
-          have h1 : CInv c1 := cinv_of_fst heq h
+          have h1 : CInv T H c1 := cinv_of_fst heq h
           exact h1
         · exact h
       · exact h
     · exact h
 
-theorem takeUserPings_cinv {c : Conn} (h : CInv c) : CInv c.takeUserPings.1 := by
+theorem takeUserPings_cinv {c : Conn} (h : CInv T H c) : CInv T H c.takeUserPings.1 := by
   unfold Conn.takeUserPings; split <;> exact h
 
-theorem userSendPing_cinv {c : Conn} (h : CInv c) : CInv c.userSendPing.1 := by
+theorem userSendPing_cinv {c : Conn} (h : CInv T H c) : CInv T H c.userSendPing.1 := by
   unfold Conn.userSendPing
   split
   · exact h
@@ -104,7 +123,7 @@ theorem userSendPing_cinv {c : Conn} (h : CInv c) : CInv c.userSendPing.1 := by
     · exact h.op (.wake _) trivial
     · split <;> exact h
 
-theorem userPollPong_cinv {c : Conn} (h : CInv c) (t : String) : CInv (c.userPollPong t).1 := by
+theorem userPollPong_cinv {c : Conn} (h : CInv T H c) (t : String) : CInv T H (c.userPollPong t).1 := by
   unfold Conn.userPollPong
   split
   · exact h
@@ -113,21 +132,21 @@ theorem userPollPong_cinv {c : Conn} (h : CInv c) (t : String) : CInv (c.userPol
     · exact h
     · split <;> exact h
 
-theorem dropUserPingsRx_cinv {c : Conn} (h : CInv c) : CInv c.dropUserPingsRx := by
+theorem dropUserPingsRx_cinv {c : Conn} (h : CInv T H c) : CInv T H c.dropUserPingsRx := by
   unfold Conn.dropUserPingsRx
   split
   · exact h
   · exact h.op (.wake _) trivial
 
 /-- `Settings::recv_settings`: the ACK of our SETTINGS applies exactly the values we sent -/
-theorem recvSettings_cinv {c : Conn} (h : CInv c) (ack : Bool) (vals : List (Nat × Nat)) :
-    CInv (c.recvSettings ack vals).1 := by
+theorem recvSettings_cinv {c : Conn} (h : CInv T H c) (ack : Bool) (vals : List (Nat × Nat)) :
+    CInv T H (c.recvSettings ack vals).1 := by
   unfold Conn.recvSettings
   split
   · split
     · next loc hloc =>
       have hv : valsValid loc := by have := h.2; rw [hloc] at this; exact this
-      have h1 : CI (c.streams.applyLocalSettingsFrame loc).1 c.settings.loc := h.op (.applyLocalSettings loc) hv
+      have h1 : CI T H (c.streams.applyLocalSettingsFrame loc).1 c.settings.loc := h.op (.applyLocalSettings loc) hv
       dsimp only
       split
       · rename_i heq; rw [heq] at h1; exact h1
@@ -138,8 +157,8 @@ theorem recvSettings_cinv {c : Conn} (h : CInv c) (ack : Bool) (vals : List (Nat
     · exact h.op (.panic _) trivial
     · exact h
 
-theorem sendSettings_cinv {c : Conn} (h : CInv c) (vals : List (Nat × Nat)) (hv : valsValid vals) :
-    CInv (c.sendSettings vals).1 := by
+theorem sendSettings_cinv {c : Conn} (h : CInv T H c) (vals : List (Nat × Nat)) (hv : valsValid vals) :
+    CInv T H (c.sendSettings vals).1 := by
   unfold Conn.sendSettings
   split
   · exact ⟨h.1, hv⟩
@@ -186,7 +205,7 @@ theorem settingsPollSend_eq (c : Conn) : c.settingsPollSend =
   unfold Conn.settingsPollSend settingsAck settingsSendOwn
   rfl
 
-theorem settingsAck_cinv {c : Conn} (h : CInv c) : CInv (settingsAck c).1 := by
+theorem settingsAck_cinv {c : Conn} (h : CInv T H c) : CInv T H (settingsAck c).1 := by
   unfold settingsAck
   split
   · next settings _ =>
@@ -194,16 +213,16 @@ theorem settingsAck_cinv {c : Conn} (h : CInv c) : CInv (settingsAck c).1 := by
     · rename_i c1 heq; exact cinv_of_fst heq h
     · rename_i c1 e heq; exact cinv_of_fst heq h
     · rename_i c1 heq
-      have h1 : CInv c1 := cinv_of_fst heq h
+      have h1 : CInv T H c1 := cinv_of_fst heq h
       dsimp only
-      have h2 : CI (c1.streams.applyRemoteSettings settings (!c1.settings.hasReceivedRemoteInitialSettings)).1
+      have h2 : CI T H (c1.streams.applyRemoteSettings settings (!c1.settings.hasReceivedRemoteInitialSettings)).1
           c1.settings.loc := h1.op (.applyRemoteSettings _ _) trivial
       split
       · rename_i heq2; exact CI.fst heq2 h2
       · rename_i heq2; exact CI.fst heq2 h2
   · exact h
 
-theorem settingsSendOwn_cinv {c : Conn} (h : CInv c) : CInv (settingsSendOwn c).1 := by
+theorem settingsSendOwn_cinv {c : Conn} (h : CInv T H c) : CInv T H (settingsSendOwn c).1 := by
   unfold settingsSendOwn
   dsimp only
   split
@@ -214,12 +233,12 @@ theorem settingsSendOwn_cinv {c : Conn} (h : CInv c) : CInv (settingsSendOwn c).
       rw [hloc'] at this; exact this
     split
     · rename_i c2 heq2
-      have h2 : CInv c2 := cinv_of_fst heq2 (show CInv _ from h)
+      have h2 : CInv T H c2 := cinv_of_fst heq2 (show CInv T H _ from h)
       exact ⟨h2.1, hv⟩
-    · exact (show CInv _ from h)
+    · exact (show CInv T H _ from h)
   · exact h
 
-theorem settingsPollSend_cinv {c : Conn} (h : CInv c) : CInv c.settingsPollSend.1 := by
+theorem settingsPollSend_cinv {c : Conn} (h : CInv T H c) : CInv T H c.settingsPollSend.1 := by
   rw [settingsPollSend_eq]
   have h1 := settingsAck_cinv h
   split
@@ -228,7 +247,7 @@ theorem settingsPollSend_cinv {c : Conn} (h : CInv c) : CInv c.settingsPollSend.
     exact settingsSendOwn_cinv h1
   · exact h1
 
-theorem pollReady_cinv {c : Conn} (h : CInv c) : CInv c.pollReady.1 := by
+theorem pollReady_cinv {c : Conn} (h : CInv T H c) : CInv T H c.pollReady.1 := by
   unfold Conn.pollReady
   have h1 := sendPendingPong_cinv h
   split
@@ -248,354 +267,20 @@ theorem pollReady_cinv {c : Conn} (h : CInv c) : CInv c.pollReady.1 := by
     · exact h2
   · exact h1
 
-theorem setTargetWindowSize_cinv {c : Conn} (h : CInv c) (size : Nat) (hs : size ≤ 2147483647) :
-    CInv (c.setTargetWindowSize size) := by
+theorem setTargetWindowSize_cinv {c : Conn} (h : CInv T H c) (size : Nat) (hs : size ≤ 2147483647) :
+    CInv size (max H size) (c.setTargetWindowSize size) := by
   unfold Conn.setTargetWindowSize
-  exact h.op (.setTargetConnectionWindow size) hs
+  obtain ⟨g, hg, -, hh⟩ := h.1
+  refine ⟨⟨_, Reach.step (.setTargetConnectionWindow size) hg hs, rfl, ?_⟩, h.2⟩
+  show max g.hiTarget size = _
+  rw [hh]
 
-theorem setInitialWindowSize_cinv {c : Conn} (h : CInv c) (size : Nat) (hs : size ≤ 2147483647) :
-    CInv (c.setInitialWindowSize size).1 := by
+theorem setInitialWindowSize_cinv {c : Conn} (h : CInv T H c) (size : Nat) (hs : size ≤ 2147483647) :
+    CInv T H (c.setInitialWindowSize size).1 := by
   unfold Conn.setInitialWindowSize
   refine sendSettings_cinv h _ ?_
   intro t ht
   have : settingsIws [(4, size)] = some size := by simp [settingsIws]
   rw [this] at ht; cases ht; exact hs
-
-theorem cinv_ite {p : Prop} [Decidable p] {a b : Conn} (ha : CInv a) (hb : CInv b) : CInv (if p then a else b) := by
-  split <;> assumption
-
-theorem takeError_cinv {c : Conn} (h : CInv c) (o : Reason) (i : Initiator) : CInv (c.takeError o i).1 := by
-  unfold Conn.takeError
-  dsimp only
-  repeat' split
-  all_goals exact h
-
-theorem handleGoAway_cinv {c : Conn} (h : CInv c) (r : Reason) (d : Bytes) (i : Initiator) :
-    CInv (c.handleGoAway r d i) := by
-  unfold Conn.handleGoAway
-  apply cinv_ite
-  · exact h
-  · dsimp only
-    apply goAwayNowData_cinv
-    exact h.op (.handleError _) trivial
-
-theorem handlePoll2Result_cinv {c : Conn} (h : CInv c) (res : Except PErr Unit) : CInv (c.handlePoll2Result res).1 := by
-  unfold Conn.handlePoll2Result
-  split
-  · exact h
-  · exact handleGoAway_cinv h _ _ _
-  · split
-    · exact h
-    · rename_i id reason init _
-      have h1 : CI (c.streams.innerSendReset id reason).1 c.settings.loc := h.op (.innerSendReset id reason) trivial
-      split
-      · rename_i heq; exact CI.fst heq h1
-      · rename_i s g heq
-        apply handleGoAway_cinv
-        exact CI.fst heq h1
-  · dsimp only
-    split <;> exact h.op (.handleError _) trivial
-
-theorem lift_cinv {c : Conn} {α : Type} (r : Streams × Except PErr Unit) (hr : CI r.1 c.settings.loc) (a : α) :
-    CInv (match r with
-      | (s, .ok _) => ({ c with streams := s }, (Except.ok a : Except PErr α))
-      | (s, .error e) => ({ c with streams := s }, Except.error e)).1 := by
-  split <;> exact hr
-
-/-- **`DynConnection::recv_frame`**: every frame the peer can send -/
-theorem recvFrame_cinv {c : Conn} (h : CInv c) (f : Option Frame.Frame) : CInv (c.recvFrame f).1 := by
-  unfold Conn.recvFrame
-  dsimp only
-  split
-  · exact lift_cinv _ (h.op (.recvHeaders _) trivial) _
-  · exact lift_cinv _ (h.op (.recvData _ _ _ _) trivial) _
-  · exact lift_cinv _ (h.op (.recvReset _ _) trivial) _
-  · exact lift_cinv _ (h.op (.recvPushPromise _ _) trivial) _
-  · exact h
-  · rename_i last code debug
-    have := h.op (.recvGoAwayFrame last code debug) trivial
-    split <;> (rename_i heq; exact CI.fst heq this)
-  · -- PING
-    rename_i ack payload
-    have h1 : CI (c.streams.wake (c.pingPong.recvPing ack payload).2.2.1) c.settings.loc := h.op (.wake _) trivial
-    have h1' : CInv { c with pingPong := (c.pingPong.recvPing ack payload).1,
-                             streams := c.streams.wake (c.pingPong.recvPing ack payload).2.2.1 } := h1
-    have h2 := cinv_ite (p := (c.pingPong.recvPing ack payload).2.2.2 = true) h1' (panic_cinv h1' "ping_pong assertion")
-    generalize (if (c.pingPong.recvPing ack payload).2.2.2 = true then _ else Conn.panic _ "ping_pong assertion") = c2 at h2 ⊢
-    split
-    · apply dynGoAway_cinv
-      exact cinv_ite h2 (panic_cinv h2 _)
-    · exact h2
-  · exact lift_cinv _ (h.op (.recvWindowUpdate _ _) trivial) _
-  · exact h
-  · exact h.op (.recvEof false) trivial
-
-
-/-- the part of the `poll2` loop after `send_pending_go_away`; `again` = the next turn -/
-def poll2GoOn (again : Conn → Conn × PollRes) (c : Conn) : Conn × PollRes :=
-  match c.pollReady with
-  | (c, .pending) => (c, PollRes.pending)
-  | (c, .err e) => (c, .ready (.error e))
-  | (c, .ok) =>
-    let (codec, polled) := pollNext (c.codec.r.buf.length + c.codec.io.rd.length + 2) c.codec c.cx
-    let c := { c with codec := codec }
-    match polled with
-    | .pending => (c, .pending)
-    | .err e => (c, .ready (.error (Conn.rerrToPErr e)))
-    | .ioErr kind msg => (c, .ready (.error (.io kind msg)))
-    | other =>
-      let frame := match other with | .frame f => some f | _ => none
-      match c.recvFrame frame with
-      | (c, .error e) => (c, .ready (.error e))
-      | (c, .ok .continue) => again c
-      | (c, .ok .done) => (c, .ready (.ok ()))
-      | (c, .ok (.settings ack vals)) =>
-        match c.recvSettings ack vals with
-        | (c, .error e) => (c, .ready (.error e))
-        | (c, .ok _) => again c
-
-theorem poll2Loop_succ (fuel : Nat) (c : Conn) : Conn.poll2Loop (fuel + 1) c =
-    (match c.sendPendingGoAway with
-     | (c, .pending) => (c, .pending)
-     | (c, .err e) => (c, .ready (.error e))
-     | (c, .reason reason) =>
-       if c.goAway.shouldCloseNow then
-         if c.goAway.isUserInitiated then (c, .ready (.ok ()))
-         else (c, .ready (.error (PErr.libraryGoAway reason)))
-       else poll2GoOn (Conn.poll2Loop fuel) c
-     | (c, .none) => poll2GoOn (Conn.poll2Loop fuel) c) := by
-  conv => lhs; unfold Conn.poll2Loop
-  rfl
-
-theorem poll2GoOn_cinv (again : Conn → Conn × PollRes) (hag : ∀ c, CInv c → CInv (again c).1) {c : Conn} (h : CInv c) :
-    CInv (poll2GoOn again c).1 := by
-  unfold poll2GoOn
-  have h1 := pollReady_cinv h
-  split
-  · rename_i c1 heq; exact cinv_of_fst heq h1
-  · rename_i c1 e heq; exact cinv_of_fst heq h1
-  · rename_i c1 heq
-    have h1 : CInv c1 := cinv_of_fst heq h1
-    dsimp only
-    have h2 : CInv { c1 with codec := (pollNext (c1.codec.r.buf.length + c1.codec.io.rd.length + 2) c1.codec c1.cx).1 } := h1
-    split
-    · exact h2
-    · exact h2
-    · exact h2
-    · have h3 := recvFrame_cinv h2
-      split
-      · rename_i heq3; exact cinv_of_fst heq3 (h3 _)
-      · rename_i heq3; exact hag _ (cinv_of_fst heq3 (h3 _))
-      · rename_i heq3; exact cinv_of_fst heq3 (h3 _)
-      · rename_i c3 ack vals heq3
-        have h4 := recvSettings_cinv (cinv_of_fst heq3 (h3 _)) ack vals
-        split
-        · rename_i heq4; exact cinv_of_fst heq4 h4
-        · rename_i heq4; exact hag _ (cinv_of_fst heq4 h4)
-
-theorem poll2Loop_cinv (fuel : Nat) {c : Conn} (h : CInv c) : CInv (Conn.poll2Loop fuel c).1 := by
-  induction fuel generalizing c with
-  | zero => unfold Conn.poll2Loop; exact panic_cinv h _
-  | succ fuel ih =>
-    rw [poll2Loop_succ]
-    have h1 := sendPendingGoAway_cinv h
-    split
-    · rename_i heq; exact cinv_of_fst heq h1
-    · rename_i heq; exact cinv_of_fst heq h1
-    · rename_i heq
-      have h1 := cinv_of_fst heq h1
-      split
-      · split <;> exact h1
-      · exact poll2GoOn_cinv _ (fun c hc => ih hc) h1
-    · rename_i heq; exact poll2GoOn_cinv _ (fun c hc => ih hc) (cinv_of_fst heq h1)
-
-theorem poll2_cinv (fuel : Nat) {c : Conn} (h : CInv c) : CInv (Conn.poll2 fuel c).1 := by
-  unfold Conn.poll2
-  exact poll2Loop_cinv fuel (h.op (.clearExpiredResetStreams _) trivial)
-
-
-/-- **`proto::Connection::poll`**: whatever the peer sent, however the transport chops it -/
-theorem protoPoll_cinv (fuel : Nat) {c : Conn} (h : CInv c) : CInv (Conn.protoPoll fuel c).1 := by
-  induction fuel generalizing c with
-  | zero => unfold Conn.protoPoll; exact panic_cinv h _
-  | succ fuel ih =>
-    unfold Conn.protoPoll
-    split
-    · -- open
-      have h1 := poll2_cinv (fuel + 1) h
-      split
-      · rename_i c1 result heq
-        have h2 := handlePoll2Result_cinv (cinv_of_fst heq h1) result
-        split
-        · rename_i heq2; exact ih (cinv_of_fst heq2 h2)
-        · rename_i heq2; exact cinv_of_fst heq2 h2
-      · rename_i c1 heq
-        have h1 : CInv c1 := cinv_of_fst heq h1
-        have h2 : CI (Streams.pollComplete (fuel + 1) c1.streams c1.codec.w c1.codec.io c1.cx).1 c1.settings.loc :=
-          h1.op (.pollComplete (fuel + 1) c1.codec.w c1.codec.io c1.cx) trivial
-        dsimp only
-        split
-        · exact h2
-        · exact h2
-        · split
-          · exact ih (goAwayNow_cinv (c := { c1 with streams := _, codec := _ }) h2 _)
-          · exact h2
-    · -- closing
-      dsimp only
-      split
-      · exact h
-      · exact h
-      · exact ih (c := { c with codec := _, state := _ }) h
-    · -- closed
-      dsimp only
-      exact takeError_cinv h _ _
-
-theorem clientPoll_cinv (fuel : Nat) {c : Conn} (h : CInv c) : CInv (Conn.clientPoll fuel c).1 := by
-  unfold Conn.clientPoll
-  dsimp only
-  have h1 : CInv (if (!c.hasStreamsOrOtherReferences) = true then c.goAwayNow NO_ERROR else c) :=
-    cinv_ite (goAwayNow_cinv h _) h
-  generalize (if (!c.hasStreamsOrOtherReferences) = true then c.goAwayNow NO_ERROR else c) = c1 at h1 ⊢
-  have h2 := protoPoll_cinv fuel h1
-  repeat' split
-  all_goals first | exact h2 | exact h2.op (.wake _) trivial
-
-theorem goAwayGracefully_cinv {c : Conn} (h : CInv c) : CInv c.goAwayGracefully := by
-  unfold Conn.goAwayGracefully
-  split
-  · exact h
-  · dsimp only
-    have h1 := dynGoAway_cinv h Conn.STREAM_ID_MAX NO_ERROR
-    exact cinv_ite (panic_cinv h1 _) h1
-
-theorem goAwayFromUser_cinv {c : Conn} (h : CInv c) (e : Reason) : CInv (c.goAwayFromUser e) := by
-  unfold Conn.goAwayFromUser
-  dsimp only
-  split
-  · exact h.op (.handleError _) trivial
-  · exact (h.op (.panic _) trivial).op (.handleError _) trivial
-
-
--- ===================================================================== the initial connections
-
-/-- the builder was given legal window sizes (`initial_window_size`, `initial_connection_window_size`
-    ≤ 2^31-1; the real builder panics on a larger connection window and does not check the stream
-    window — see the notes) -/
-def CfgValid (cfg : Conn.Cfg) : Prop :=
-  (∀ v, cfg.iws = some v → v ≤ 2147483647) ∧ (∀ v, cfg.cws = some v → v ≤ 2147483647)
-
-theorem settingsIws_cfg (cfg : Conn.Cfg) : settingsIws cfg.settings = cfg.iws := by
-  unfold settingsIws Conn.Cfg.settings
-  cases cfg.hts <;> cases cfg.push <;> cases cfg.mcs <;> cases cfg.iws <;> cases cfg.mfs <;> cases cfg.mhl <;> simp
-
-theorem init_cinv (cfg : Conn.Cfg) (hv : CfgValid cfg) : CInv (Conn.init cfg) := by
-  constructor
-  · cases hc : cfg.cws with
-    | none => exact ⟨_, .init (init_client cfg hc)⟩
-    | some sz => exact ⟨_, init_client_cws cfg sz hc (hv.2 sz hc)⟩
-  · have : (Conn.init cfg).settings.loc = .waitingAck cfg.settings := by
-      unfold Conn.init
-      cases cfg.cws <;> rfl
-    rw [this]
-    intro t ht
-    rw [settingsIws_cfg] at ht
-    exact hv.1 t ht
-
-theorem init_server_cinv (cfg : Conn.Cfg) (ecp : Bool) (pf : Bytes) (hv : CfgValid cfg) :
-    CInv (Conn.initServer cfg ecp pf) := by
-  constructor
-  · cases hc : cfg.cws with
-    | none => exact ⟨_, .init (init_server cfg ecp pf hc)⟩
-    | some sz => exact ⟨_, init_server_cws cfg ecp pf sz hc (hv.2 sz hc)⟩
-  · have : (Conn.initServer cfg ecp pf).settings.loc =
-        .waitingAck ((({ cfg with push := none } : Conn.Cfg).settings) ++ (if ecp then [(8, 1)] else [])) := by
-      unfold Conn.initServer
-      cases cfg.cws <;> rfl
-    rw [this]
-    intro t ht
-    have h4 : settingsIws ((({ cfg with push := none } : Conn.Cfg).settings) ++ (if ecp then [(8, 1)] else [])) = cfg.iws := by
-      unfold settingsIws Conn.Cfg.settings
-      cases cfg.hts <;> cases cfg.mcs <;> cases cfg.iws <;> cases cfg.mfs <;> cases cfg.mhl <;> cases ecp <;> simp
-    rw [h4] at ht
-    exact hv.1 t ht
-
--- ===================================================================== connection-level reachability
-
-/-- what an application (or the harness) can do with a connection: drive it (`poll`), reconfigure
-    the windows, shut it down, ping — and any call of the stream layer that the handles
-    (`SendRequest`, `SendStream`, `RecvStream`, `ResponseFuture`, …) make directly -/
-inductive COp where
-  | protoPoll (fuel : Nat)
-  | clientPoll (fuel : Nat)
-  | setTargetWindowSize (size : Nat)
-  | setInitialWindowSize (size : Nat)
-  | goAwayGracefully
-  | goAwayFromUser (e : Reason)
-  | goAwayNow (e : Reason)
-  | userSendPing
-  | userPollPong (tag : String)
-  | dropUserPingsRx
-  | takeUserPings
-  | handle (op : Op)
-
-def COp.apply (c : Conn) : COp → Conn
-  | .protoPoll fuel => (c.protoPoll fuel).1
-  | .clientPoll fuel => (c.clientPoll fuel).1
-  | .setTargetWindowSize size => c.setTargetWindowSize size
-  | .setInitialWindowSize size => (c.setInitialWindowSize size).1
-  | .goAwayGracefully => c.goAwayGracefully
-  | .goAwayFromUser e => c.goAwayFromUser e
-  | .goAwayNow e => c.goAwayNow e
-  | .userSendPing => c.userSendPing.1
-  | .userPollPong t => (c.userPollPong t).1
-  | .dropUserPingsRx => c.dropUserPingsRx
-  | .takeUserPings => c.takeUserPings.1
-  | .handle op => { c with streams := op.apply c.streams }
-
-/-- window sizes are legal (`set_target_window_size` / `set_initial_window_size` assert it) -/
-def COp.valid (c : Conn) : COp → Prop
-  | .setTargetWindowSize size => size ≤ 2147483647
-  | .setInitialWindowSize size => size ≤ 2147483647
-  | .handle op => op.valid c.streams
-  | _ => True
-
-theorem COp.step_cinv {c : Conn} (h : CInv c) (op : COp) (hv : op.valid c) : CInv (op.apply c) := by
-  cases op with
-  | protoPoll fuel => exact protoPoll_cinv fuel h
-  | clientPoll fuel => exact clientPoll_cinv fuel h
-  | setTargetWindowSize size => exact setTargetWindowSize_cinv h size hv
-  | setInitialWindowSize size => exact setInitialWindowSize_cinv h size hv
-  | goAwayGracefully => exact goAwayGracefully_cinv h
-  | goAwayFromUser e => exact goAwayFromUser_cinv h e
-  | goAwayNow e => exact goAwayNow_cinv h e
-  | userSendPing => exact userSendPing_cinv h
-  | userPollPong t => exact userPollPong_cinv h t
-  | dropUserPingsRx => exact dropUserPingsRx_cinv h
-  | takeUserPings => exact takeUserPings_cinv h
-  | handle op => exact h.op op hv
-
-/-- connections reachable from a new client or server connection -/
-inductive CReach : Conn → Prop where
-  | client (cfg : Conn.Cfg) (hv : CfgValid cfg) : CReach (Conn.init cfg)
-  | server (cfg : Conn.Cfg) (ecp : Bool) (pf : Bytes) (hv : CfgValid cfg) : CReach (Conn.initServer cfg ecp pf)
-  | step {c : Conn} (op : COp) (h : CReach c) (hv : op.valid c) : CReach (op.apply c)
-  /-- the environment: anything but the stream layer and the SETTINGS bookkeeping may change in any
-      way (octets arriving on the transport, the transport taking or refusing writes, wakers, …) -/
-  | env {c c' : Conn} (h : CReach c) (hs : c'.streams = c.streams) (hl : c'.settings = c.settings) : CReach c'
-
-theorem creach_cinv {c : Conn} (h : CReach c) : CInv c := by
-  induction h with
-  | client cfg hv => exact init_cinv cfg hv
-  | server cfg ecp pf hv => exact init_server_cinv cfg ecp pf hv
-  | step op _ hv ih => exact COp.step_cinv ih op hv
-  | env _ hs hl ih => unfold CInv; rw [hs, hl]; exact ih
-
-/-- **the stream layer of every reachable connection is in a `Reach` state** — whatever the peer
-    sends, however the transport chops reads and writes, whatever the application does: the
-    connection-level theorems of `H2V/Props/C03.lean` apply to it -/
-theorem creach_reach {c : Conn} (h : CReach c) : ∃ g, Reach g c.streams := (creach_cinv h).1
-
-theorem creach_inv {c : Conn} (h : CReach c) : ∃ g, Inv false g c.streams :=
-  let ⟨g, hg⟩ := creach_reach h; ⟨g, reach_inv hg⟩
 
 end H2V.Lemmas.ConnRecvP
